@@ -913,6 +913,7 @@ def run(repo, rep):
     resmodel.report_situations(repo, rep, 'R05h', (
         'outcome', 'error-flavour', 'unknown-error', 'kind-predicate',
         'first-layer-wins', 'no-evaluation-when-unmatched',
+        'chosen-overload-runs-alone',
         'every-value-checked', 'failed-check-rejects', 'rejects-bad-calls',
         'payload-gets-converted-slots',
         'conversion-error-is-argument-error', 'map-accepts-iff-wellformed',
